@@ -34,6 +34,9 @@ Definition weqb (a b : weight) : bool :=
   | _, _ => false
   end.
 
+(* src/graph/adjacent_node.rs: (node_index, weight) *)
+Notation adj := (nat * weight)%type.
+
 Section Types.
   Context {T A : Type}.
 
@@ -41,8 +44,6 @@ Section Types.
   Record node := mknode { nname : T; nattr : option A }.
   Record edge := mkedge { eu : T; ev : T; ew : weight; eattr : option A }.
 
-  (* src/graph/adjacent_node.rs *)
-  Definition adj := (nat * weight)%type.
 
   Record gstate := mkg {
     nodes_map : list (T * nat);
